@@ -42,6 +42,8 @@ type c02Case struct {
 	RefLit []int           `json:"reflit"`
 	VT     string          `json:"vt"`
 	DT     int             `json:"dt"`
+	// Kids are the non-leaf operands of a depth-2 expression, observed as constants of their own.
+	Kids []c02Case `json:"kids"`
 }
 
 type bigJSON struct {
@@ -157,9 +159,13 @@ func run(p *scriggo.Program) (lines [][]string, class string, msg string) {
 }
 
 func observe(k *c02Case, oracle bool) map[string]any {
+	kids := []any{}
+	for i := range k.Kids {
+		kids = append(kids, observe(&k.Kids[i], oracle))
+	}
 	o := map[string]any{"id": k.ID, "expr": k.Expr, "src": k.Src, "reflit": k.RefLit, "vt": k.VT, "dt": k.DT,
 		"builds": "", "msg": []int{}, "chk": "none", "chkmsg": []int{}, "eq": "", "hasv": 0,
-		"v": bigJSON{L: []int{}}, "dtobs": ""}
+		"v": bigJSON{L: []int{}}, "dtobs": "", "kids": kids}
 	p0, p1 := programs(k)
 	var lines [][]string
 	if oracle {
@@ -292,7 +298,7 @@ func main() {
 				if r := recover(); r != nil {
 					out = []any{map[string]any{"id": k.ID, "expr": k.Expr, "src": k.Src, "reflit": k.RefLit, "vt": k.VT,
 						"dt": k.DT, "builds": "hostpanic", "msg": drv.IntsS(fmt.Sprint(r)), "chk": "none", "chkmsg": []int{},
-						"eq": "", "hasv": 0, "v": bigJSON{L: []int{}}, "dtobs": ""}}
+						"eq": "", "hasv": 0, "v": bigJSON{L: []int{}}, "dtobs": "", "kids": []any{}}}
 				}
 			}()
 			return []any{observe(&k, oracle)}
